@@ -13,6 +13,27 @@ from harness.sched import core
 MODS = ['futures', 'utils', 'download', 'manager', 'bandwidth', 'tasks', 'upload', 'copies', 'delete']
 
 
+class _HookedLock:
+    """Delegates to the shim lock; calls `hook` right after every release."""
+
+    def __init__(self, lock, hook):
+        self._l, self._hook = lock, hook
+
+    def acquire(self, *a, **k):
+        return self._l.acquire(*a, **k)
+
+    def release(self):
+        self._l.release()
+        self._hook()
+
+    def __enter__(self):
+        self._l.acquire()
+        return self
+
+    def __exit__(self, *a):
+        self.release()
+
+
 def _fn_name(fc):
     """Readable identity of a FunctionContainer / callable registered as callback."""
     f = getattr(fc, '_func', fc)
@@ -35,6 +56,8 @@ class Instr:
         self.task_objs = []
         self.executors = []      # CoopExecutor instances in creation order
         self.sem_names = {}
+        self.in_cancel = {}      # id(thread) -> depth inside cancel()
+        self.cancel_pending = {} # id(thread) -> True while the locked section has not run
         self.fut_task = {}       # id(ExecutorFuture) -> task id
         self.keep = []           # keep futures alive so that ids stay unique
 
@@ -106,7 +129,13 @@ class Instr:
         def mk_cancel(orig):
             def cancel(self_, msg='', exc_type=futures.CancelledError):
                 I.log('cancel_call', t=self_.transfer_id, msg=str(msg), etype=getattr(exc_type, '__name__', str(exc_type)))
-                orig(self_, msg, exc_type)
+                me = s.me()
+                I.in_cancel[id(me)] = I.in_cancel.get(id(me), 0) + 1
+                I.cancel_pending[id(me)] = False
+                try:
+                    orig(self_, msg, exc_type)
+                finally:
+                    I.in_cancel[id(me)] -= 1
                 I.log('cancel_return', t=self_.transfer_id, status=self_._status,
                       stored=I.exc_desc(self_._exception))
             return cancel
@@ -199,6 +228,7 @@ class Instr:
                     real_set()
                     I.log('event_set', t=self_.transfer_id, status=self_._status)
                 ev.set = logged_set
+                self_._lock = _HookedLock(self_._lock, lambda: I.on_state_lock_release(self_))
             return __init__
         wrap(TC, '__init__', mk_tc_init)
 
@@ -208,7 +238,7 @@ class Instr:
         def mk_call(orig):
             def __call__(self_, ctx=None):
                 k = I.task_id(self_)
-                I.log('task_start', t=self_.transfer_id, task=k, cls=type(self_).__name__)
+                I.log('task_start', t=self_.transfer_id, task=k, cls=type(self_).__name__, final=bool(self_._is_final))
                 s.yield_point('task_start')
                 try:
                     return orig(self_, ctx)
@@ -249,6 +279,40 @@ class Instr:
             return _execute_main
         wrap(Task, '_execute_main', mk_exec_main)
 
+        def mk_wait_all(orig):
+            def _wait_for_all_submitted_futures_to_complete(self_):
+                orig(self_)
+                I.log('wait_all_done', t=self_.transfer_id, task=I.task_id(self_))
+            return _wait_for_all_submitted_futures_to_complete
+        wrap(tasks.SubmissionTask, '_wait_for_all_submitted_futures_to_complete', mk_wait_all)
+
+        def mk_dissoc(orig):
+            def remove_associated_future(self_, future):
+                orig(self_, future)
+                I.log('dissoc', t=self_.transfer_id, task=I.fut_task.get(id(future), -1))
+            return remove_associated_future
+        wrap(TC, 'remove_associated_future', mk_dissoc)
+
+        def mk_assoc(orig):
+            def add_associated_future(self_, future):
+                orig(self_, future)
+                I.log('assoc', t=self_.transfer_id, task=I.fut_task.get(id(future), -1))
+            return add_associated_future
+        wrap(TC, 'add_associated_future', mk_assoc)
+
+        TM = mods['manager'].TransferManager
+
+        def mk_shutdown(orig):
+            def _shutdown(self_, cancel, cancel_msg, exc_type=futures.CancelledError):
+                I.log('shutdown_begin', cancel=bool(cancel), msg=str(cancel_msg),
+                      etype=getattr(exc_type, '__name__', str(exc_type)))
+                try:
+                    return orig(self_, cancel, cancel_msg, exc_type)
+                finally:
+                    I.log('shutdown_return')
+            return _shutdown
+        wrap(TM, '_shutdown', mk_shutdown)
+
         # -- bounded executor / semaphores -----------------------------------------
         BE = futures.BoundedExecutor
 
@@ -258,6 +322,8 @@ class Instr:
                 I.log('stage_submit_call', stage=I.stage_of(self_), task=k, t=task.transfer_id,
                       tag=getattr(tag, 'name', None), cls=type(task).__name__)
                 fut = orig(self_, task, tag, block)
+                I.fut_task[id(fut)] = k
+                I.keep.append(fut)
                 I.log('enqueued', stage=I.stage_of(self_), task=k, t=task.transfer_id,
                       tag=getattr(tag, 'name', None))
                 return fut
@@ -299,6 +365,15 @@ class Instr:
                 return f
             wrap(CCI, nm, mk_cci)
         return self
+
+    def on_state_lock_release(self, coord):
+        """Called when a thread leaves a critical section of coord._lock: if it is
+        inside cancel() this is the end of cancel's locked section."""
+        me = self.sched.me()
+        if self.in_cancel.get(id(me), 0) > 0 and not self.cancel_pending.get(id(me)):
+            self.cancel_pending[id(me)] = True
+            self.log('cancel_applied', t=coord.transfer_id, status=coord._status,
+                     stored=self.exc_desc(coord._exception))
 
     # ---- naming ----------------------------------------------------------------
     def bind_manager(self, manager):
